@@ -51,6 +51,8 @@ def transport_param_is_received(F, fn, idx, depth=0):
 
 
 def check(R, F):
+    from rules.name_rules import check_raw_name_comparisons
+    check_raw_name_comparisons(R, F)
     import rules.c05 as _c05
     _c05._FACTS[0] = F
     from rules import e5, writer_inv
